@@ -170,6 +170,7 @@ type c09Config struct {
 	Rewrite     string // "", "srflx-mapped", "srflx-mapped-2", "host-append", "host-dup", "relay-drop", "relay-append"
 	ListenErrAt int
 	CloseErr    bool
+	BadTurnURL  bool // a second TURN URL without credentials follows the valid one (accepted at construction, skipped by the gatherer)
 }
 
 func c09ConfigGen() *rapid.Generator[c09Config] {
@@ -193,6 +194,7 @@ func c09ConfigGen() *rapid.Generator[c09Config] {
 			c.ListenErrAt = rapid.IntRange(1, 4).Draw(t, "listenErrAt")
 		}
 		c.CloseErr = rapid.IntRange(0, 5).Draw(t, "closeErr") == 0
+		c.BadTurnURL = rapid.IntRange(0, 3).Draw(t, "badTurnURL") == 0
 
 		return c
 	})
@@ -256,6 +258,9 @@ func newC09World(cfg c09Config, extra ...AgentOption) (*c09World, error) {
 				proto = stun.ProtoTypeTCP
 			}
 			urls = append(urls, &stun.URI{Scheme: stun.SchemeTypeTURN, Host: "198.51.100.2", Port: 3478, Proto: proto, Username: "u", Password: "p"})
+			if cfg.BadTurnURL {
+				urls = append(urls, &stun.URI{Scheme: stun.SchemeTypeTURN, Host: "198.51.100.3", Port: 3478, Proto: proto})
+			}
 		}
 		opts = append(opts, WithUrls(urls))
 	}
